@@ -454,7 +454,8 @@ def _fields(acc, ann, meta, cache):
                             elif eff == "preserve":
                                 want_a = ("v", ev(vx))
                             else:
-                                want_a = ("absent_or", 7) if variant in ("default", "modeopt") else ("absent",)
+                                # = strict parsing of the input without the offending field: the declared default
+                                want_a = ("v", 7) if variant in ("default", "modeopt") else ("absent",)
                             ga = got.get("a", "<absent>")
                             good = ((want_a[0] == "v" and "a" in got and canon(ga) == canon(want_a[1])) or
                                     (want_a[0] == "absent" and "a" not in got) or
